@@ -183,6 +183,12 @@ def binop(I, op, a, b, node=None):
         return SSet(a.items + b.items)
     if isinstance(op, ast.BitAnd) and isinstance(a, (SSet, ZVal)) and isinstance(b, (SSet, ZVal)):
         return set_binop(I, "and", a, b)
+    if isinstance(op, ast.Sub) and isinstance(a, ZVal) and isinstance(a.ty, TSet) and isinstance(b, SIterable) and b.what == "keys" \
+            and isinstance(b.payload, ZVal) and isinstance(b.payload.ty, TMap):
+        # set - d.keys(): the elements that are not keys of d
+        dom = b.payload.ty.parts()[2][0](b.payload.t)
+        x = z3.Const("sub_x", a.ty.elem.sort())
+        return ZVal(a.ty, Cell(z3.Lambda([x], z3.And(z3.Select(a.t, x), z3.Not(z3.Select(dom, x))))))
     if isinstance(op, ast.Sub) and isinstance(a, (SSet, ZVal)) and isinstance(b, (SSet, ZVal)):
         return set_binop(I, "sub", a, b)
     if isinstance(op, ast.BitOr) and isinstance(a, (SSet, ZVal)) and isinstance(b, (SSet, ZVal)):
